@@ -223,6 +223,10 @@ int main(void)
 	app_alg = nondet_bool();
 	app_iat = nondet_bool();
 	app_exp = nondet_bool();
+#ifdef C17_SIMPLE
+	/* fault-injection scenario: one application claim, no application headers, no callback */
+	app_typ = app_alg = app_iat = 0;
+#endif
 	app_iat_val = nondet_long();
 	app_exp_val = nondet_long();
 	app_typ_val[0] = nondet_char();
@@ -248,6 +252,9 @@ int main(void)
 
 	/* ---- callback ---- */
 	have_cb = nondet_bool();
+#ifdef C17_SIMPLE
+	have_cb = 0;
+#endif
 	cb_ret = nondet_int();
 	cb_setkey = nondet_bool();
 	cb_setalg = nondet_bool();
@@ -312,6 +319,10 @@ int main(void)
 	c18_havoc();
 	c18_snapshot();
 #endif
+#ifdef FAULT_K
+	vf_alloc_no = 0;                 /* concrete request index from here on */
+	vf_fail_at = FAULT_K;
+#endif
 	/* ================================================================= the call */
 	out = jwt_builder_generate(b);
 	/* ================================================================= */
@@ -337,6 +348,12 @@ int main(void)
 	     "C18: shared key material is only read");
 	REACH(out != NULL && pv_hmac_calls + pv_pem_calls == 1, "signed token generated");
 	REACH(out == NULL, "generate failed");
+#endif
+
+#ifdef PROP_C17
+	PROP((out == NULL) == (jwt_builder_error(b) != 0), "C17: under an allocation fault generate still returns NULL exactly when the error flag is set");
+	REACHF(vf_faulted && out == NULL, "fault injected and reported");
+	REACHF(vf_faulted && out != NULL, "fault injected, token unaffected");
 #endif
 
 #ifdef PROP_C13
